@@ -186,7 +186,7 @@ def Seg.appendSlot (s : Seg) (id gid : Nat) (growthFactor : Nat) (adv : Int := 0
 
 structure Ctx where
   seg : Seg
-  smap : Array (Option Nat)        -- `m_slot_map[MAX_SLOTS+1]`; `smap[n]` of the C++ is cell `n + 1`
+  smap : Array (Option Nat)        -- `m_slot_map[MAX_SLOTS+2]` (cell 0, `m_size ≤ MAX_SLOTS` cells, the cell behind them); `smap[n]` of the C++ is cell `n + 1`
   size : Nat                       -- `m_size`
   context : Nat                    -- `m_precontext`
   highwater : Option Nat := none
